@@ -394,17 +394,24 @@ def Sys.onConn (s : Sys) (i : Nat) (f : Conn → CRes) : Sys :=
   | none => s
   | some c => s.putConn i (f c)
 
+/-- connection_accepted(): a slot and a descriptor are taken -/
+def Sys.pushConn (s : Sys) (i : Nat) (c : Conn) : Sys :=
+  { s with conns := (i, c) :: s.conns, lim := s.lim - 1, curFds := s.curFds + 1 }
+
+/-- what a freshly accepted connection finds in its socket: bytes sent while the client was waiting in
+    the listen queue, and possibly its FIN -/
+def Sys.acceptData (cfg : Cfg) (s : Sys) (i : Nat) (cl : Client) (c0 : Conn) : Sys :=
+  let s := match cl.req with
+    | some r => if cl.pre > 0 then s.putConn i (recv cfg s.now c0 r cl.pre) else s
+    | none => s
+  if cl.preFin then s.onConn i fun c => (finConn false c, []) else s
+
 /-- connection_accepted() + the first connection_state_machine() for the head of the backlog -/
 def Sys.accept (cfg : Cfg) (s : Sys) (i : Nat) : Sys :=
   let cl := s.client i
   let c0 : Conn := { rts := s.now }
-  let s := { s with conns := (i, c0) :: s.conns, lim := s.lim - 1, curFds := s.curFds + 1 }
-  if cl.preClosed then s.release i
-  else
-    let s := match cl.req with
-      | some r => if cl.pre > 0 then s.putConn i (recv cfg s.now c0 r cl.pre) else s
-      | none => s
-    if cl.preFin then s.onConn i fun c => (finConn false c, []) else s
+  let s := s.pushConn i c0
+  if cl.preClosed then s.release i else s.acceptData cfg i cl c0
 
 def acceptMany (cfg : Cfg) : Nat → Sys → Sys
   | 0, s => s
